@@ -57,4 +57,72 @@ mod verif_kani_blte_chunk {
     fn chunk_framing_salsa20_index_70000() {
         check(EncryptionSpec::salsa20(0x1234_5678_9abc_def0, [9, 8, 7, 6]), 70_000);
     }
+
+    // ---- decoder side of the chunk-level contract ------------------------------------------------
+    #[allow(unsafe_code)]
+    pub fn fixed_random_state() -> std::collections::hash_map::RandomState {
+        unsafe { core::mem::transmute::<(u64, u64), std::collections::hash_map::RandomState>((0u64, 0u64)) }
+    }
+
+    static STORE_KEY: [u8; 16] = KEY;
+
+    /// stands in for TactKeyStore::get (a std HashMap lookup CBMC does not get through): the store
+    /// "contains" exactly the key named 0x1234_5678_9abc_def0
+    pub fn stub_store_get(_s: &cascette_crypto::TactKeyStore, id: u64) -> Option<&'static [u8; 16]> {
+        if id == 0x1234_5678_9abc_def0 { Some(&STORE_KEY) } else { None }
+    }
+
+    fn check_round_trip(spec: EncryptionSpec, bi: usize) {
+        let data: [u8; 3] = kani::any();
+        let b = BlteBuilder::new();
+        let chunk = match b.create_encrypted_chunk_with_params(data.to_vec(), spec, KEY, bi) {
+            Ok(c) => c,
+            Err(e) => {
+                core::mem::forget(e);
+                assert!(false, "encrypting a raw payload succeeds");
+                return;
+            }
+        };
+        let store = cascette_crypto::TactKeyStore::empty();
+        match crate::blte::compression::decrypt_chunk_with_keys(&chunk.data, &store, bi) {
+            Ok(p) => assert!(p.len() == 3 && p[0] == data[0] && p[1] == data[1] && p[2] == data[2], "decrypt_chunk_with_keys(create_encrypted_chunk(x, i), i) == x"),
+            Err(e) => {
+                core::mem::forget(e);
+                assert!(false, "the real decoder accepts what the real encoder framed");
+            }
+        }
+        core::mem::forget(store);
+        kani::cover!(true);
+    }
+
+    /// C01 (bounded: 3 symbolic payload bytes, Salsa20, block index 1): the REAL decoder of one encrypted
+    /// chunk (header parsing, key lookup stubbed, cipher, inner mode byte) inverts the real encoder
+    #[kani::proof]
+    #[kani::unwind(66)]
+    #[kani::stub(alloc::fmt::format, empty_format)]
+    #[kani::stub(std::collections::hash_map::RandomState::new, fixed_random_state)]
+    #[kani::stub(cascette_crypto::TactKeyStore::get, stub_store_get)]
+    fn chunk_round_trip_salsa20_index_1() {
+        check_round_trip(EncryptionSpec::salsa20(0x1234_5678_9abc_def0, [9, 8, 7, 6]), 1);
+    }
+
+    /// C01 (thorough; bounded: same with block index 70000)
+    #[kani::proof]
+    #[kani::unwind(66)]
+    #[kani::stub(alloc::fmt::format, empty_format)]
+    #[kani::stub(std::collections::hash_map::RandomState::new, fixed_random_state)]
+    #[kani::stub(cascette_crypto::TactKeyStore::get, stub_store_get)]
+    fn chunk_round_trip_salsa20_index_70000() {
+        check_round_trip(EncryptionSpec::salsa20(0x1234_5678_9abc_def0, [9, 8, 7, 6]), 70_000);
+    }
+
+    /// C01 (thorough; bounded: ARC4 instead of Salsa20, block index 1)
+    #[kani::proof]
+    #[kani::unwind(258)]
+    #[kani::stub(alloc::fmt::format, empty_format)]
+    #[kani::stub(std::collections::hash_map::RandomState::new, fixed_random_state)]
+    #[kani::stub(cascette_crypto::TactKeyStore::get, stub_store_get)]
+    fn chunk_round_trip_arc4_index_1() {
+        check_round_trip(EncryptionSpec::arc4(0x1234_5678_9abc_def0, [9, 8, 7, 6]), 1);
+    }
 }
